@@ -58,22 +58,33 @@ def theorem_table():
     return out
 
 
-def lean_scan_forbidden():
-    """no sorry/admit/axiom/native_decide/... anywhere in the Lean sources (comments excluded)"""
+def lean_closure(roots):
+    """files of the lake project transitively imported from the given root files"""
+    seen, todo = set(), list(roots)
+    while todo:
+        f = todo.pop()
+        if f in seen or not os.path.exists(f):
+            continue
+        seen.add(f)
+        for m in re.finditer(r'^import\s+(LexgenModel[\w\.]*)', open(f).read(), re.M):
+            todo.append(os.path.join(LEAN, *m.group(1).split('.')) + '.lean')
+    return sorted(seen)
+
+
+def lean_scan_forbidden(prop):
+    """no sorry/admit/axiom/native_decide/... in any Lean source the property's theorems, the model
+    or the driver depend on (comments excluded)"""
     bad = []
     pat = re.compile(r'\bsorry\b|\badmit\b|^\s*axiom\s|native_decide|bv_decide|implemented_by|\bunsafe\s|maxHeartbeats\s+0\b')
-    for dp, dn, fns in os.walk(LEAN):
-        if '.lake' in dp:
-            continue
-        for fn in fns:
-            if not fn.endswith('.lean'):
-                continue
-            txt = open(os.path.join(dp, fn)).read()
-            txt = re.sub(r'/-.*?-/', '', txt, flags=re.S)
-            for i, line in enumerate(txt.split('\n')):
-                line = line.split('--')[0]
-                if pat.search(line):
-                    bad.append('%s:%d: %s' % (fn, i + 1, line.strip()))
+    roots = [os.path.join(LEAN, 'Main.lean'), os.path.join(LEAN, 'LexgenModel.lean'), os.path.join(LEAN, 'LexgenModel', 'Props', prop + '.lean'),
+             os.path.join(LEAN, 'LexgenModel', 'Generated', 'TablesCheck.lean')]
+    for path in lean_closure(roots):
+        txt = open(path).read()
+        txt = re.sub(r'/-.*?-/', '', txt, flags=re.S)
+        for i, line in enumerate(txt.split('\n')):
+            line = line.split('--')[0]
+            if pat.search(line):
+                bad.append('%s:%d: %s' % (os.path.basename(path), i + 1, line.strip()))
     return bad
 
 
@@ -100,7 +111,7 @@ def run_proofs(prop, tier):
         out['detail'].append('lake build failed: ' + p.stdout.decode('utf-8', 'replace')[-3000:])
         out['wall_s'] = time.time() - t0
         return out
-    forb = lean_scan_forbidden()
+    forb = lean_scan_forbidden(prop)
     if forb:
         out['ok'] = False
         out['detail'].append('forbidden constructs: ' + '; '.join(forb[:5]))
@@ -262,7 +273,7 @@ def decide_from_corpus(prop, res, builtins, seed, only_programs=None):
         return only_programs is None or only_programs(nm, progs[nm])
 
     # (a) oracle violations on this property's projection: concrete failing inputs
-    for v in res['oracle_violations'].get(prop, []):
+    for v in sorted(res['oracle_violations'].get(prop, []), key=lambda v: (len(v['input']), len(v['script'])))[:6]:
         if not wanted(v['program']):
             continue
         violations.append({'definition': progs[v['program']]['text'], 'def_json': progs[v['program']]['json'], 'input': v['input'], 'script': v['script'],
